@@ -352,6 +352,11 @@ func subZlibVsReader() mon.Sub {
 			strategy := []int{0, 4, 2, 3, 1}[c.Rng.Intn(5)] // default, fixed, huffman, rle, filtered
 			memLevel := 1 + c.Rng.Intn(9)
 			final := 1 + c.Rng.Intn(2)
+			if c.Rng.Intn(4) == 0 {
+				// an encoder without a sync flush ends the message with a BFINAL=1 block and appends one
+				// 00 octet, so that the removed tail completes an empty stored block (RFC 7692 §7.2.3.4)
+				final = 4
+			}
 			var chunks []pyoracle.Chunk
 			for _, p := range splitRandom(c, msg, 6) {
 				chunks = append(chunks, pyoracle.Chunk{Data: p, Flush: []int{0, 0, 1, 2}[c.Rng.Intn(4)]})
@@ -362,11 +367,16 @@ func subZlibVsReader() mon.Sub {
 				c.Inconclusive("oracle process: " + err.Error())
 				return
 			}
-			if !bytes.HasSuffix(raw, tail) {
-				c.Inconclusive("zlib output does not end with the sync tail")
-				return
+			var comp []byte
+			if final == 4 {
+				comp = append(append([]byte(nil), raw...), 0x00)
+			} else {
+				if !bytes.HasSuffix(raw, tail) {
+					c.Inconclusive("zlib output does not end with the sync tail")
+					return
+				}
+				comp = raw[:len(raw)-4]
 			}
-			comp := raw[:len(raw)-4]
 			det["compressed_len"] = len(comp)
 			plans := xport.Plans(c.Rng.Int63(), nil)
 			var rr *reusedReader
@@ -387,6 +397,18 @@ func subZlibVsReader() mon.Sub {
 					c.Fail("reader/zlib-stream", fmt.Sprintf("decompression reader does not recover a zlib sync-flushed stream (err=%v, %d vs %d bytes)", err, len(got), len(msg)), det)
 					return
 				}
+			}
+			// the one-call helpers take the same peer-made message
+			c.Count(1)
+			if d, err := wsflate.DefaultHelper.Decompress(comp); err != nil || !bytes.Equal(d, msg) {
+				c.Fail("helpers/zlib-stream", fmt.Sprintf("Helper.Decompress does not recover a message compressed by zlib (err=%v, %d vs %d bytes)", err, len(d), len(msg)), det)
+				return
+			}
+			pf := ws.NewFrame(ws.OpBinary, true, comp)
+			pf.Header.Rsv = ws.Rsv(true, false, false)
+			if df, err := wsflate.DecompressFrame(pf); err != nil || !bytes.Equal(df.Payload, msg) {
+				c.Fail("frames/zlib-stream", fmt.Sprintf("DecompressFrame does not recover a frame compressed by zlib (err=%v)", err), det)
+				return
 			}
 			c.Classf("class=%d level=%d strat=%d final=%d", class, level, strategy, final)
 			c.Sample(det)
@@ -772,7 +794,7 @@ func main() {
 		Property: "C12",
 		Level:    "exploration",
 		Rule: "oracle = CPython zlib (python3 oracles/inflate.py, raw deflate window 15) in a pool of subprocesses; the library runs with Go's compress/flate as the user-supplied codec. (a) writer: 12 payload classes (empty, 1 byte, incompressible 100/4K/70K, compressible 1K/40K/200K > window, text-like, zero runs, random) x flate levels {-2,-1,0,1,2,5,6,9} x resettable / non-resettable compressors x random write splits with Flush after random writes x end {Flush, Flush+Close, Flush+Flush, Close with no Flush after the last Write} x fresh / reused writer: zlib must inflate output ++ 00 00 ff ff to the message, and the library reader must recover it under 3 chunk plans; " +
-			"(b) reader: zlib streams (levels 0-9, strategies default/fixed/huffman/rle/filtered, memLevel 1-9, inner sync/full flushes, final sync or full flush) minus the 4-byte tail, read through byte-reader and plain-reader sources under 4 chunk plans and 4 buffer sizes; (c) frame helpers: header/payload round trip, RSV1+Length only, non-final refused, pass-through; (d) tail logic with fake compressors ending a flush with 7 different suffixes and odd chunkings, and (e) writers REUSED through Reset for 2-5 messages whose (resettable or rebuilt) compressor ends each flush with a scripted good or bad suffix: every message is judged on its own. distinct = (payload class, level/strategy, mode) classes.",
+			"(b) reader: zlib streams (levels 0-9, strategies default/fixed/huffman/rle/filtered, memLevel 1-9, inner sync/full flushes, final sync or full flush minus the 4-byte tail, or a final BFINAL=1 block plus the 00 octet of RFC 7692 §7.2.3.4), read through byte-reader and plain-reader sources under 4 chunk plans and 4 buffer sizes; (c) frame helpers: header/payload round trip, RSV1+Length only, non-final refused, pass-through; (d) tail logic with fake compressors ending a flush with 7 different suffixes and odd chunkings, and (e) writers REUSED through Reset for 2-5 messages whose (resettable or rebuilt) compressor ends each flush with a scripted good or bad suffix: every message is judged on its own. distinct = (payload class, level/strategy, mode) classes.",
 		Assumptions: []string{"CPython zlib 1.2.13 is the independent DEFLATE implementation", "python3 is on PATH (pre-installed in the image)"},
 		Setup: func(r *mon.Run) {
 			var err error
